@@ -7,17 +7,17 @@ CONSTANTS
   SvcUuids = {201}
   Events = {0}
   Fns = {0}
-  CSerials = {0}
+  CSerials = {0, 1}
   Payloads = {1}
   TypeIds = {301}
   Caps <- CapsOne
-  MaxCookie = 4
+  MaxCookie = 3
   InqBound = 1
-  Kinds = {"CreateObject", "DestroyObject", "CreateService", "CreateService2", "DestroyService", "QueryServiceVersion", "QueryServiceInfo", "Sync"}
-  Faults = {"ends", "dropped", "sdb", "sdi"}
+  Kinds = {"CallFunction", "CallFunction2", "CallFunctionReply", "AbortFunctionCall", "DestroyService", "DestroyObject"}
+  Faults = {"ends", "dropped"}
   WrongKinds = {}
   MsgBudget = 4
-  ScriptSel = "none"
+  ScriptSel = "svc"
   V0 = 20
   V1 = 20
 VIEW view
